@@ -275,6 +275,9 @@ def main():
         kani_pool = cf.ThreadPoolExecutor(max_workers=1)
         kani_future = kani_pool.submit(run_kani, tier)
     names = scenarios(prop, tier)
+    only = os.environ.get("SYMX_ONLY")  # development aid: restrict to scenarios matching a regex
+    if only:
+        names = [n for n in names if re.search(only, n)]
     if not names:
         log(f"INCONCLUSIVE: no scenarios for {prop}")
         sys.exit(2)
